@@ -288,7 +288,7 @@ def run_differential(spec, props):
 def specs(tier):
     out = []
     thorough = tier != "quick"
-    gs = [gr.NAMED[k] for k in ("P2", "P3", "K3", "P4")] + [(3, [(0, 1)]), (1, []), (4, gr.NAMED["C4"][1])]
+    gs = [gr.NAMED[k] for k in ("P2", "P3", "K3", "P4")] + [(3, [(0, 1)]), (1, []), (4, gr.NAMED["C4"][1]), (3, [(0, 1), (1, 2), (1, 1), (0, 0)])]
     if thorough:
         gs += [(4, es) for es in gr.shapes(4)]
     for name, (model, mainkind, hasR0) in SIMS.items():
